@@ -730,7 +730,9 @@ def _rawsvg_docs(
     config: FontConfig, ttfont: ttLib.TTFont, color_glyphs: Sequence[ColorGlyph]
 ) -> Sequence[Tuple[str, int, int]]:
     doc_list = []
-    for color_glyph in color_glyphs:
+    # the SVG table requires document records sorted by glyph id; inputs may not be
+    # (e.g. a colored .notdef, always gid 0, listed after other glyphs)
+    for color_glyph in sorted(color_glyphs, key=lambda c: c.glyph_id):
         svg = (
             # all the scaling and positioning happens in "transform" below
             color_glyph.svg.remove_attributes(("width", "height", "viewBox"))
